@@ -235,6 +235,26 @@ def run_job(job, rec):
                     np.allclose(np.asarray(a, float), np.asarray(b, float), rtol=1e-13, atol=0) for a, b in zip(got_b[: len(want)], want))
                 rec.check(okb, "bounds-not-concatenated", lambda: f"{desc}: bounds {got_b} do not start with the components' bounds {want}", rec.context)
 
+            # a change-point's own parameters come as (location, width) per change-point; limits the user gives for them
+            # must sit at the same positions of the bounds list (the hyper-parameter vector and the labels are ordered that way)
+            if spec[0] == "CP" and len(spec[2]) >= 2:
+                m_cp = len(spec[2]) - 1
+                ax_lo, ax_hi = float(x[:, spec[1]].min()), float(x[:, spec[1]].max())
+                dxa = (ax_hi - ax_lo) or 1.0
+                lb = [(ax_lo + dxa * (k_ + 0.1) / m_cp, ax_lo + dxa * (k_ + 0.9) / m_cp) for k_ in range(m_cp)]
+                wb = [(dxa * 0.01 * (k_ + 1), dxa * 0.1 * (k_ + 2)) for k_ in range(m_cp)]
+                K2 = guarded(lambda: C.ChangePoint(kernels=[G.build_repo_kernel(s_) for s_ in spec[2]], axis=spec[1], location_bounds=lb, width_bounds=wb))
+                r2 = K2 if isinstance(K2, Raised) else guarded(lambda: (K2.pass_spatial_data(x), K2.estimate_hyperpar_bounds(y)))
+                rec.count("change_point_user_limit_checks")
+                if isinstance(r2, Raised):
+                    rec.violation("raised", f"ChangePoint with user limits raised {r2!r}", rec.context)
+                else:
+                    tail = [tuple(float(v) for v in b) for b in list(K2.bounds)[-2 * m_cp:]]
+                    want_t = [tuple(float(v) for v in b) for pair in zip(lb, wb) for b in pair]
+                    labs2 = list(K2.hyperpar_labels)[-2 * m_cp:]
+                    rec.check(tail == want_t, "bounds-not-concatenated",
+                              lambda: f"{desc}: change-point limits given as locations {lb} / widths {wb}; the bounds of {labs2} are {tail}", rec.context)
+
         # ---- `+` builds a new object and leaves its operands as they were (a composite reused as an operand)
         if c % 3 == 0:
             k1, k2, k3, k4 = C.SquaredExponential(), C.WhiteNoise(), C.RationalQuadratic(), C.SquaredExponential()
